@@ -2,6 +2,13 @@
 
 # engine -> (regex on the driver's branch tags that makes a case non-trivial, description)
 ENGINE_RULES = {
+    "renumber": (r"((folded|hashed)=[1-9]|err=(dup|undef|cycle))",
+                 "random AIGs (arbitrary numbering / gate order, constants and negations as inputs, shared and unused "
+                 "gates, all sections) x 8 configs plus ill-formed variants (cycle, dangling, duplicate); non-trivial = "
+                 "a gate was constant-folded or structurally hashed, or an error kind was produced"),
+    "writer": (r"(coldops=[1-9]|err=1|panicked=1)",
+               "random op histories on DeferredWriter over scheduled sinks; slice lengths aimed at the capacity "
+               "boundary; non-trivial = a cold path / sink call happened or an error was parked"),
     "scan": (r"(ovf=1|fast=1|moved=[1-9]|run=[1-9])",
              "scanner x type x input x offset x buffered amount (random numerals around the type bounds, all "
              "terminators; with opt=exhaustive every string over {space,tab,CR,LF,'a','0'} up to length 4 (quick) / 6 "
@@ -16,6 +23,10 @@ HOOK_COMMITS = []
 
 # (name, path, description)
 ENGINES = [
+    ("renumber", "harness/src/eng_renumber.rs + lean/Driver/EngRenumber.lean",
+     "Renumber::renumber_aig on random and ill-formed AIGs vs. the Lean model vs. truth-table / simulation oracle"),
+    ("writer", "harness/src/eng_writer.rs + lean/Driver/EngWriter.lean",
+     "DeferredWriter op histories over scheduled sinks vs. the Lean model vs. a reference byte log"),
     ("scan", "harness/src/eng_scan.rs + lean/Driver/EngScan.lean",
      "flussab::text scanners on the real reader vs. the Lean model vs. arbitrary-precision / slice references"),
     ("comb", "harness/src/eng_comb.rs + lean/Driver/EngComb.lean",
@@ -107,4 +118,20 @@ PROPS = {
         note="Trusted: Lean kernel, harness. The bytes-pulled bound combines the look-ahead ghost with C09's "
              "reads_only_when_demanded.",
         assumptions=[]),
+    "C12": dict(
+        module="Flussab.Props.C12", engines=[("renumber", 2000, 40000, "")], release=True,
+        claim="Renumber::renumber_aig is modelled closely (visiting order, lit_map with polarity, input sort, "
+              "const-fold order, structural hashing, code allocation, error kinds, mid-stack cycle test). Theorems for "
+              "all AIGs, all 8 configs and any fuel: renumber_order (consecutive numbering, larger input first and "
+              "below the gate, ranges), renumber_sound (every root and every lit_map entry computes the same function "
+              "under every valuation consistent with the old graph), renumber_errors* (duplicate / undefined / cycle "
+              "never yield Ok, the reported literal is genuinely at fault, Ok iff well-formed), renumber_terminates / "
+              "renumberAig_never_out_of_fuel, midstack_cycle_check. Tie: renumber engine compares OrderedAig, sorted "
+              "lit_map and error kind; oracle = exhaustive truth tables (<= 6 vars) / 64-bit random simulation + order "
+              "predicate + deep 10^5..10^6-gate chain and cycle.",
+        note="Trusted: Lean kernel, harness. Modelled not verified: the explicit-stack State/Continuation loop is a "
+             "fuelled recursion with the same path list; hash maps are association lists; truncating L::from_code casts "
+             "of narrow literal types, symbols and comment are not modelled. Ill-formedness only in gates unreachable "
+             "under trim=true is not an error (code, model and oracle agree).",
+        assumptions=["literal codes fit the literal type"]),
 }
